@@ -7,7 +7,7 @@ func registerProperty(p *Property) { propTable[p.ID] = p }
 func init() {
 	registerProperty(&Property{
 		ID:    "C01",
-		Rules: []string{"codec-symmetry", "keyword-table", "zero-preserving", "proxy-complete", "ref-key"},
+		Rules: []string{"codec-symmetry", "keyword-table", "zero-preserving", "proxy-complete", "ref-key", "escape", "name-verbatim"},
 		Explanation: "Decides the table agreements that JSON round-trip losslessness rests on: for every kind with hand-written codecs, every component is both encoded and decoded (codec-symmetry); every member the Swagger 2.0 / draft-4 meta-schemas define for a kind has a byte-identical JSON field or hand-coded holder (keyword-table); numeric keywords are pointer-typed and no omitempty sits on a non-pointer numeric (zero-preserving); anonymous encode proxies carry and populate every member of the component they replace (proxy-complete); writer and reader of $ref/$schema agree on the member name (ref-key).",
 		NotCovered: "round-trip equality of values (number formatting, free-form payloads, escaping of member names - see C06), deep nesting and combinations; x- members on externalDocs/xml objects (no holder in the types; informational note only)",
 	})
@@ -67,7 +67,7 @@ func init() {
 func init() {
 	registerProperty(&Property{
 		ID:    "C03",
-		Rules: []string{"visit", "containers", "ref-clear", "ref-store"},
+		Rules: []string{"visit", "containers", "ref-clear", "ref-store", "opts-copy-complete"},
 		Explanation: "Decides the per-site disciplines 'only cycle cut-points remain' rests on. visit: every access path from Schema to a nested Schema (enumerated from the types, so a new schema-bearing field adds an obligation) is passed to the schema expander and the dereferenced result stored back at the same path. containers: every holder of refable elements (Swagger, PathItem, Operation, Parameter, Response; positions enumerated from the types) is handed to the matching expander, and by-value copies are written back. ref-clear (go/cfg must-analysis): every path from a completed dereference to a successful return stores the zero Ref into the holder. ref-store: every other store into a schema's Ref is a rewrite of a normalised reference against the root context (basePath, rootID) - or the normalised reference itself under AbsoluteCircularRef - and is control-dependent on isCircular having returned true, on skip-schemas mode, or on the empty-root-ref guard.",
 		NotCovered:  "that a kept $ref actually resolves to a node on a cycle; that denormalizeRef/rebase compute the right relative form; determinism of the output beyond C06's rules",
 	})
@@ -76,7 +76,7 @@ func init() {
 func init() {
 	registerProperty(&Property{
 		ID:    "C04",
-		Rules: []string{"cut-check", "nilres", "no-panic-path"},
+		Rules: []string{"cut-check", "nilres", "no-panic-path", "ptr-fill-guard"},
 		Explanation: "Termination over all graphs is not decidable here; decided are the mechanism's necessary conditions. cut-check: every cyclic SCC of the package's static call graph is classified call site by call site as structural descent (argument strictly below the callee's parameter, parent stack passed unchanged) or reference following (on every path to the recursive call isCircular(k, base, parentRefs...) returned false for a normalised k, and the call receives append(parentRefs, k.String()) for that same k); recursion outside the family, or a cycle of pass-through calls, is a violation; isCircular uses one normalised key for memo lookup, stack comparison and memo store. nilres: a nil *Schema result implies a provably non-nil error, and results are dereferenced only after a plain err != nil return or under an explicit != nil guard. no-panic-path: the panic-capable constructs (Must*, panic, unchecked type assertions, unguarded index/slice expressions, stores into possibly-nil maps) reachable from the exported Expand*/Resolve* entry points equal an audited table.",
 		NotCovered:  "that the loop variant is bounded (id-driven base path growth makes canonical keys unbounded - invisible structurally), stack depth, work bounds, panics inside dependencies",
 	})
@@ -85,7 +85,7 @@ func init() {
 func init() {
 	registerProperty(&Property{
 		ID:    "C08",
-		Rules: []string{"errflow", "single-decision", "nilres", "ref-store"},
+		Rules: []string{"errflow", "single-decision", "nilres", "ref-store", "continue-honoured", "ptr-fill-guard", "opts-copy-complete"},
 		Explanation: "The error-discipline template filled from the repository. errflow: in every function reachable from an exported Expand*/Resolve* entry point, every call that can fail (package-internal error-returning functions, the document loader called through its field, DynamicJSONToStruct, Pointer.Get, json.Unmarshal, jsonreference.New) has its error returned directly, or tested by the very next statement with `err != nil` / the stop predicate and the same value returned on that branch, or tested with `err == nil`; blank assignment, a dropped result, an intervening overwrite, a check on another variable, or returning nil in the error branch are violations; two audited exceptions are keyed by caller:callee#n with a reason. single-decision: ContinueOnError is read in exactly one function, a predicate over the error whose body answers 'stop' only under err != nil && !ContinueOnError and does so first. nilres and ref-store (shared with C04/C03) make continuing safe and leave a failed $ref verbatim.",
 		NotCovered:  "that every unresolvable target produces an error inside the dependencies; spurious errors on well-formed input (value-level); that everything not depending on a failed $ref is expanded as it would have been otherwise",
 	})
@@ -94,13 +94,13 @@ func init() {
 func init() {
 	registerProperty(&Property{
 		ID:    "C02",
-		Rules: []string{"thread-args", "switch-on-follow", "ref-store"},
+		Rules: []string{"thread-args", "switch-on-follow", "ref-store", "opts-copy-complete"},
 		Explanation: "Bisimilarity is a relation between run-time graphs and is not decided. Decided are the threading disciplines behind 'a $ref is always interpreted relative to the document that textually contains it': at every call between expander family members (found by role) the base-path argument derives only from the caller's own base path, from id re-scoping (setSchemaID), from updateBasePath for the resolver just created, or from RemoteURI() of the normalised ref just followed, and the loader argument only from the caller's loader or from transitiveResolver(current base, the $ref being followed) (thread-args); after a followed $ref, whatever is expanded next receives the transitive resolver and the updated base (switch-on-follow); kept refs are rewritten against the root frame (ref-store).",
 		NotCovered:  "that normalizeURI, transitiveResolver's prefix test or resolveRef's root selection compute the right document (values) - in particular the wrong-document resolutions on multi-hop chains the property text mentions are value-level and invisible to these rules; map iteration order effects",
 	})
 	registerProperty(&Property{
 		ID:    "C09",
-		Rules: []string{"skip-shape", "containers", "ref-clear", "ref-store"},
+		Rules: []string{"skip-shape", "containers", "ref-clear", "ref-store", "opts-copy-complete"},
 		Explanation: "Decides the shape of skip-schemas mode: in the schema expander the statements executed under SkipSchemas call nothing that resolves references, change nothing but the schema's Ref and return the target itself; that Ref store is a root-frame rewrite of a normalised reference (ref-store). In ExpandSpec only the definitions loop is control-dependent on !SkipSchemas; parameters, responses and path items are expanded unconditionally, completely dereferenced and cleared (containers, ref-clear), and the schema below a dereferenced parameter/response is still handed to the schema expander so nested refs are rebased.",
 		NotCovered:  "that the rebased string designates the same target; that a later full expansion gives the same outcome as a direct one",
 	})
@@ -124,7 +124,7 @@ func init() {
 func init() {
 	registerProperty(&Property{
 		ID:    "C18",
-		Rules: []string{"load-once", "canon-key", "globals"},
+		Rules: []string{"load-once", "canon-key", "globals", "root-registered"},
 		Explanation: "Transparency of results is value-level and not decided. Decided: the document loader (a func-typed field of the resolver context, found by role) is called at exactly one site, which is the field's only reader; that call is reachable only on the miss branch of a cache lookup; lookup, loader call and cache fill use one key variable assigned once from normalizeBase; every successful return after the load (go/cfg) has stored the decoded document under that key (load-once). Every other cache Get/Set uses a key produced by the normaliser, with the fragment cleared (canon-key), so 'already present in the supplied cache' is decided on the key the loader would be called with. The default cache is a clone of the built-in one (globals).",
 		NotCovered:  "that results are identical with and without a cache (values); the behaviour of caller-supplied cache implementations",
 	})
@@ -139,13 +139,13 @@ func init() {
 func init() {
 	registerProperty(&Property{
 		ID:    "C10",
-		Rules: []string{"entry-wiring", "opts-immutable", "root-readonly", "visit", "cut-check"},
+		Rules: []string{"entry-wiring", "opts-immutable", "root-readonly", "visit", "cut-check", "root-registered", "opts-copy-complete"},
 		Explanation: "Sibling cross-check of the exported entry points: every Expand*/Resolve* function that builds a loader does so through the loader factory with a fresh context, with options that are either the clone of the caller's or a literal based on the pseudo-root location, passes to the expander family as base path the RelativeBase of those very options, and - for the *WithRoot / ExpandSchema variants - registers the root through the pseudo-root helper in the same cache value the loader receives, for the same root (entry-wiring). The caller's *ExpandOptions flows only into the cloner, which copies by value and never writes through its parameter (opts-immutable). The root and cached documents are only read (root-readonly). Because all entry points reach the same family members, visit and cut-check (completeness, termination mechanism) hold for each.",
 		NotCovered:  "agreement of results between entry points (values); aliasing between the element and the root when the caller shares storage",
 	})
 	registerProperty(&Property{
 		ID:    "C05",
-		Rules: []string{"resolve-pure", "root-readonly", "errflow"},
+		Rules: []string{"resolve-pure", "root-readonly", "errflow", "resolve-strict"},
 		Explanation: "Decided: no Resolve* entry point reaches an expander or the chain dereference, so nested $refs are not followed (resolve-pure); root and cached documents flow only to nil tests, jsonpointer.Pointer.Get, the data argument of swag.DynamicJSONToStruct, cache.Set and returns of the loading method - never the base of a store, a type assertion or a decode target - and the result reaches the caller only through DynamicJSONToStruct, i.e. a deep copy (root-readonly); every error from load, Pointer.Get and DynamicJSONToStruct reaches the caller, so a reference that designates nothing cannot yield a zero value with a nil error through a swallowed error (errflow).",
 		NotCovered:  "that the URI/pointer arithmetic designates the right node; pointer escape decoding (jsonpointer); equality of the three ways of supplying the root (the typed-versus-generic half is C15's rule)",
 	})
